@@ -150,8 +150,9 @@ def gen_cmdline(rng, base):
         for _, sn in emit.walk(v):
             if sn['t'] == 'sc' and sn.get('nf') == '':
                 sn['nf'] = '~'
-        if any(tuple(path[:len(fp)]) == fp for fp in fn_paths):
+        if any(tuple(path[:len(fp)]) == fp for fp in fn_paths) or (fn_paths and any(isinstance(c, int) for c in path)) or (v['t'] == 'sp' and mode == 'neg'):
             continue        # what a later string / mapping / list does to a function node is C13's table, not this property
+                            # (list positions can be spelled in two ways: no index paths once a function node was written)
         if v['t'] == 'sp':
             fn_paths.append(tuple(path))
         overrides.append({'path': path, 'value': v})
